@@ -76,7 +76,7 @@ def create_json_string(ol, description='', indent=1):
         d = {}
         d['type'] = 'Obs'
         d['layout'] = '1'
-        if o.tag:
+        if o.tag is not None:
             d['tag'] = [o.tag]
         if o.reweighted:
             d['reweighted'] = o.reweighted
